@@ -774,8 +774,25 @@ def r9_guard(F):
                             if b_['k'] == 'Binding' and sp['field'] < len(i0['fields']) and root_var(i0['fields'][sp['field']]) in out and b_['var'] not in out:
                                 out.add(b_['var']); changed = True
         return out
+    def alpha(t):
+        """a term with the variables its own optcase / optmap binders introduce renumbered in order of appearance: two evaluations of one
+        expression (one per scan) differ only in those numbers"""
+        ren = {}
+        def go(x):
+            if not isinstance(x, tuple): return x
+            if x and x[0] in ('optcase', 'optmap') and len(x) >= 4 and isinstance(x[2], tuple) and x[2][:1] == ('bound',):
+                src = go(x[1])
+                ren[x[2]] = ('bound', 'a%d' % len(ren))
+                return (x[0], src) + tuple(go(y) for y in x[2:])
+            if x in ren: return ren[x]
+            return tuple(go(y) for y in x)
+        return go(t)
     def positive(cond, T):
         """does cond imply T > 0 ?"""
+        if cond[0] == 'bin' and cond[2] != T and cond[3] != T:
+            T_ = alpha(T)
+            if alpha(cond[2]) == T_: cond = (cond[0], cond[1], T, cond[3])
+            elif alpha(cond[3]) == T_: cond = (cond[0], cond[1], cond[2], T)
         if cond[0] == 'logic' and cond[1] == 'And': return positive(cond[2], T) or positive(cond[3], T)
         if cond[0] == 'bin' and cond[2] == T and cond[3][0] == 'lit':
             try: k = int(cond[3][1])
